@@ -291,6 +291,24 @@ def check_chain(types, gset, npts, res):
                         % (types, truth[i][0], truth[i][1].typ, np.abs(rb - want).max()))
         # reference-point consistency and location recovery (basic-frame modes)
         rb0 = n2p.rbgeom(pbs, np.array([[0.0, 0, 0]]))
+        rb0_snap = rb0.copy()
+        for other in ([2.0, -1.0, 0.5], [0.0, 3.0, 4.0]):  # the same modes moved to several points, one after the other
+            mvo = n2p.rbmove(rb0, np.array([0.0, 0, 0]), np.array(other))
+            if not np.array_equal(rb0, rb0_snap):
+                msgs.append("rbmove modified the modes it was given")
+                rb0 = rb0_snap.copy()
+            if not np.allclose(mvo, n2p.rbgeom(pbs, np.array([other])), atol=1e-9 * max(1.0, np.abs(rb0_snap).max())):
+                msgs.append("rbmove(rb, 0, %s) (after an earlier move of the same array) differs from modes built about the new reference" % (other,))
+        # a reference given as a row index in any one-element form selects that grid
+        k_ = len(pbs) // 2
+        want_k = n2p.rbgeom(pbs, np.array([pbs[k_]]))
+        for kform, kval in (("int", k_), ("numpy int", np.int64(k_)), ("[k]", [k_]), ("array([k])", np.array([k_])), ("nonzero()[0]", (np.arange(len(pbs)) == k_).nonzero()[0])):
+            try:
+                got_k = n2p.rbgeom(pbs, kval)
+                if got_k.shape != want_k.shape or not np.allclose(got_k, want_k, atol=1e-12 * max(1.0, np.abs(want_k).max())):
+                    msgs.append("rbgeom(grids, refpoint=%s as %s) is not the set of modes about grid row %d" % (k_, kform, k_))
+            except Exception as e:  # noqa
+                msgs.append("rbgeom(grids, refpoint given as %s) raised %r" % (kform, e))
         mv = n2p.rbmove(rb0, np.array([0.0, 0, 0]), refxyz)
         if not np.allclose(mv, rbb, atol=1e-9 * sc):
             msgs.append("rbmove(rb, 0, %s) differs from modes built about the new reference" % refxyz.tolist())
@@ -462,6 +480,29 @@ def check_replace_basic(res):
                 for b in range(a):
                     if not np.allclose(T0[a].T @ T0[b], T1[a].T @ T1[b], atol=1e-9):
                         msgs.append("replace_basic_cs(frame %d): relative orientation of the frames of grids %d and %d changed" % (fi, a + 1, b + 1))
+            # every grid keeps its location in its own (input / output) coordinate systems, and the rigid-body modes of the
+            # re-based table are those of the original one expressed about rotated axes (the structure did not change)
+            for g in (1, 2, 3, 4, 5):
+                cid = int(uset.loc[(g, 2), "x"])
+                if cid == 0:
+                    continue
+                try:
+                    q0 = np.asarray(n2p.getcoordinates(uset, g, cid), float).ravel()
+                    q1 = np.asarray(n2p.getcoordinates(new, g, cid), float).ravel()
+                    typ = int(uset.loc[(g, 2), "y"])
+                    if not same_point(q1, q0, typ, 1e-8):
+                        msgs.append("replace_basic_cs(frame %d, %s): grid %d is at %s in its local system %d after the replacement, before it was at %s" % (fi, form, g, q1.tolist(), cid, q0.tolist()))
+                except Exception as e:  # noqa
+                    msgs.append("getcoordinates after replace_basic_cs(frame %d) raised %r" % (fi, e))
+            try:
+                rb_old = n2p.rbgeom_uset(uset, 1)
+                rb_new = n2p.rbgeom_uset(new, 1)
+                X = np.linalg.lstsq(rb_new, rb_old, rcond=None)[0]
+                resid = np.abs(rb_new @ X - rb_old).max()
+                if not (resid <= 1e-8 * max(1.0, np.abs(rb_old).max()) and np.allclose(X.T @ X, np.eye(6), atol=1e-8)):
+                    msgs.append("replace_basic_cs(frame %d, %s): rigid-body modes of the re-based table (about grid 1, local output frames) are not the original modes about rotated axes (residual %.3g)" % (fi, form, resid))
+            except Exception as e:  # noqa
+                msgs.append("rbgeom_uset after replace_basic_cs(frame %d) raised %r" % (fi, e))
             if not np.array_equal(uset.values, n2p.addgrid(None, [1, 2, 3, 4, 5], "b", cin, locs, [0, defs[0], defs[1], defs[2], 0], {}).values):
                 msgs.append("replace_basic_cs modified its input table")
             # the grid that was in basic is now in the new system 50, whose frame is the old basic
